@@ -123,7 +123,7 @@ Proof. unfold c_lmove, RNil, RB. crush_err. Qed.
 Theorem error_no_effect_lemma : ∀ dl s now c,
   is_error (exec dl s now c).2 = true → (exec dl s now c).1 = s.
 Proof.
-  intros dl s now c. unfold exec. destruct (cmd_reject c); [done|].
+  intros dl s now c. unfold exec. destruct (cmd_reject dl c); [done|].
   unfold exec_wf. destruct (key_fun dl now c) as [[k f]|] eqn:K.
   - unfold on_key. destruct (f (s !! k)) as [oe r] eqn:F. simpl. intros Hr.
     pose proof (key_fun_err dl now c k f (s !! k) K) as He. rewrite F in He. simpl in He.
@@ -149,7 +149,7 @@ Qed.
 Theorem read_only_no_effect_lemma : ∀ dl s now c,
   ro_impl (tag c) = true → (exec dl s now c).1 = s.
 Proof.
-  intros dl s now c R. unfold exec. destruct (cmd_reject c); [done|].
+  intros dl s now c R. unfold exec. destruct (cmd_reject dl c); [done|].
   unfold exec_wf. destruct (key_fun dl now c) as [[k f]|] eqn:K.
   - unfold on_key. destruct (f (s !! k)) as [oe r] eqn:F. simpl.
     pose proof (key_fun_ro dl now c k f (s !! k) K R) as He. rewrite F in He. simpl in He.
@@ -224,7 +224,7 @@ Qed.
 (* one command keeps the invariant *)
 Lemma Inv_exec dl s now c : Inv (s, now) → Inv ((exec dl s now c).1, now).
 Proof.
-  intros HI. unfold exec. destruct (cmd_reject c); [done|].
+  intros HI. unfold exec. destruct (cmd_reject dl c); [done|].
   unfold exec_wf. destruct (key_fun dl now c) as [[k f]|] eqn:K.
   - unfold on_key. destruct (f (s !! k)) as [oe r] eqn:F. simpl.
     apply Inv_upd; [done|].
@@ -458,7 +458,7 @@ Theorem key_local_lemma : ∀ dl c ks, cmd_keys c = Some ks → ∀ s1 s2 now, a
   agree_on ks (exec dl s1 now c).1 (exec dl s2 now c).1 ∧
   ∀ k, k ∉ ks → (exec dl s1 now c).1 !! k = s1 !! k.
 Proof.
-  intros dl c ks Hks s1 s2 now Ha. unfold exec. destruct (cmd_reject c); [done|].
+  intros dl c ks Hks s1 s2 now Ha. unfold exec. destruct (cmd_reject dl c); [done|].
   unfold exec_wf. destruct (key_fun dl now c) as [[k f]|] eqn:K.
   - rewrite (cmd_keys_single _ _ _ _ _ K) in Hks. injection Hks as <-.
     destruct (on_key_local [k] s1 s2 k f) as [H1 H2]; [set_solver | done |].
@@ -492,7 +492,10 @@ Qed.
 Theorem dialect_eq_outside_class_lemma : ∀ s now c,
   known_dev s c = false → exec AsBuilt s now c = exec Redis s now c.
 Proof.
-  intros s now c H. unfold exec. destruct (cmd_reject c); [done|]. unfold exec_wf.
+  intros s now c H. unfold exec.
+  assert (cmd_reject AsBuilt c = cmd_reject Redis c) as ->.
+  { destruct c; try reflexivity; simpl in *; rewrite H; simpl; by rewrite ?andb_false_r. }
+  destruct (cmd_reject Redis c); [done|]. unfold exec_wf.
   destruct c; try reflexivity; simpl in *; unfold on_key.
   - (* GETSET *) unfold c_getset. destruct (s !! k) as [[[] [d|]]|]; simpl in *; done.
   - (* GETRANGE *) unfold c_getrange. destruct (s !! k) as [[[] d]|]; simpl in *; try done.
